@@ -62,7 +62,8 @@ BORROW = {
     "C12": ALGEBRA + [("C03", "r03_1"), ("C09", "r09_1"), ("C09", "r09_2"), ("C09", "r09_3"), ("C09", "r09_4"), ("C04", "r04_4")],
     # every constructor ends in the segments setter, which degree-reduces each segment (BezierCurve.clean)
     "C17": [("C13", "r13_4"), ("C18", "r18_13"), ("C15", "r15_2"), ("C15", "r15_3")],   # == of two descriptions unites pieces
-    "C18": ALGEBRA,
+    # ... evaluated exactly for rational data: no intermediate point of the Horner scheme is rounded to the cap
+    "C18": ALGEBRA + [("C13", "r13_3")],
     # exact crossing parameters come from the exact line solver; they become exact vertices only if the split addresses
     # the segment they were computed on and cuts it at them
     # ... and the exact moments are the Green sums of R04.1 / R04.2
@@ -73,7 +74,7 @@ BORROW = {
     "C15": [("C18", "r18_10")],
     "C16": CHAIN + SIGN + VERTICES + [("C02", "r02_1"), ("C02", "r02_2")],     # ... and are observed through `p in shape`
     # directly constructed composites answer containment like the operator-built ones
-    "C19": [("C03", "r03_2"), ("C03", "r03_2b"), ("C03", "r03_3")],
+    "C19": [("C03", "r03_2"), ("C03", "r03_2b"), ("C03", "r03_3"), ("C04", "r04_1")],      # ... and has the moments of its members
     # fills and outlines are decided by the orientation sign
     "C20": SIGN,
 }
